@@ -3,6 +3,7 @@ package sim
 import (
 	"fmt"
 	"reflect"
+	"sigs.k8s.io/controller-runtime/pkg/client"
 	"strconv"
 	"strings"
 
@@ -163,14 +164,52 @@ type Track struct {
 	// last user disturbance kind (release / rollback / scale / plan-edit / jump / delete / disable / pause)
 	LastDisturbance string
 	Released        bool // the first template change (the release itself) happened
+	// since the Rollout was last Healthy:
+	Superseded             bool // a template change hit a progressing release
+	Scaled                 bool // the workload was scaled
+	ChangedWhileFinalising bool // a template change hit Progressing/Cancelling or /Finalising
 
 	// C10
-	CancelArmed      bool // rollback / supersession written while canary traffic was non-zero
-	CancelHadTraffic bool
-	CancelKind       string
+	Cancel          *CancelState            // the rollback / supersession in flight, nil if none
+	StableTpl       *corev1.PodTemplateSpec // workload template before the release in flight began
+	CanaryTpl       *corev1.PodTemplateSpec // workload template the controller recorded as the canary revision
+	Cancels         int                     // rollbacks / supersessions armed during the run
+	CancelsHot      int                     // ... of which with canary traffic installed
+	HandBacks       int                     // hand-back events judged while armed with traffic
+	Restarts        int                     // supersession restarts judged
+	SupersedeWrites int                     // BatchRelease writes on the workload judged between supersession and restart
+	RolledBacks     int                     // rollback completions judged
+
+	pendingRelease bool // a template change was written since the Rollout was last Healthy
+	cancelUnjudged bool // a template change hit a phase the cancel monitor does not classify
 
 	// C05 / C18: user configuration before the release
 	Base *Baseline
+}
+
+// CancelState: the user reverted the workload to its stable template ("rollback") or published a
+// third template ("supersede") while the Rollout was progressing.
+type CancelState struct {
+	Kind       string // rollback | supersede
+	HadTraffic bool   // the gateway carried a canary share / match when the user wrote
+	Seq        int
+	CanaryRev  string // the Rollout's recorded canary revision at that time
+	Reason     string // progressing reason at that time
+	Cancelling bool   // the controller entered Progressing/Cancelling afterwards
+	NewPods    int    // live pods of the canary revision at that time
+	StablePods int    // live pods of the stable revision at that time
+}
+
+// PodsOfRevision counts live pods of the scenario's workload labelled with the given revision.
+func (w *World) PodsOfRevision(s Scenario, rev string) int {
+	n := 0
+	for _, po := range w.ListAll(GVKPod, s.Namespace) {
+		p := po.(*corev1.Pod)
+		if p.DeletionTimestamp == nil && p.Labels[revKey] == rev && p.Labels["app"] == "demo" {
+			n++
+		}
+	}
+	return n
 }
 
 // Baseline is the user-owned configuration recorded before the release.
@@ -204,6 +243,9 @@ func (w *World) Tracks() []*Track {
 func (w *World) InstallMonitors(s Scenario) *Track {
 	t := &Track{S: s, ReadySeen: map[int32]bool{}, RoutedOK: map[int32]bool{}, LastExposure: -1}
 	t.Base = w.captureBaseline(s)
+	if o := w.workloadObject(s); o != nil {
+		t.StableTpl = templateOf(o).DeepCopy()
+	}
 	if _, ok := w.Scratch[trackKey]; !ok {
 		w.Scratch[trackKey] = t
 	}
@@ -306,6 +348,7 @@ func (m *stdMonitor) OnWrite(w *World, wr *Write) {
 	if !s.Owns(w, wr) {
 		return
 	}
+	m.checkCancelOrder(w, wr)
 	switch wr.GVK {
 	case GVKRollout:
 		m.onRollout(w, wr)
@@ -368,23 +411,39 @@ func (m *stdMonitor) checkNoVoid(w *World, wr *Write) {
 	}
 }
 
-// context names the situation a violation arose in (rollout phase / progressing reason and the
-// last kind of user disturbance), so that different violations of one invariant get different
-// signatures and a listed finding does not mask another one.
+// context names the circumstances a C04 violation arose in, derived from what the user did since
+// the Rollout was last Healthy and from the store, so that different defects behind one
+// invariant get different signatures and a listed finding does not mask another one.
 func (m *stdMonitor) context(w *World) string {
-	s := m.t.S
-	ctx := "-rollout-gone"
-	if ro := w.Rollout(s.Namespace, s.Name); ro != nil {
-		ctx = "-during-" + strings.ToLower(string(ro.Status.Phase))
-		if ro.Status.Phase == v1beta1.RolloutPhaseProgressing {
-			ctx += "-" + strings.ToLower(progressingReason(ro))
+	t, s := m.t, m.t.S
+	ro := w.Rollout(s.Namespace, s.Name)
+	third := false
+	whole := false
+	if ro != nil && ro.Status.GetSubStatus() != nil {
+		sub := ro.Status.GetSubStatus()
+		for _, po := range w.ListAll(GVKPod, s.Namespace) {
+			p := po.(*corev1.Pod)
+			if p.DeletionTimestamp == nil && p.Labels["app"] == "demo" && p.Labels[revKey] != sub.StableRevision && p.Labels[revKey] != canaryRevOf(ro) && p.Labels[revKey] != sub.PodTemplateHash {
+				third = true
+			}
+		}
+		if steps := stepsOf(ro); int(sub.CurrentStepIndex) >= 1 && int(sub.CurrentStepIndex) <= len(steps) {
+			whole = expectedAll(steps[sub.CurrentStepIndex-1], m.workloadReplicas(w))
 		}
 	}
-	last := "none"
-	if m.t.LastDisturbance != "" {
-		last = m.t.LastDisturbance
+	switch {
+	case t.ChangedWhileFinalising:
+		return "-template-change-while-finalising"
+	case t.Superseded || third:
+		return "-superseded-release"
+	case whole && t.Scaled:
+		return "-whole-workload-step-after-scale"
+	case whole:
+		return "-whole-workload-step"
+	case t.Scaled:
+		return "-after-scale"
 	}
-	return ctx + "-after-" + last
+	return "-plain"
 }
 
 func (m *stdMonitor) workloadReplicas(w *World) int {
@@ -486,6 +545,230 @@ func (m *stdMonitor) checkFinalizerResidue(w *World, wr *Write) {
 	}
 }
 
+// ---------- C10: rollback / supersession ----------
+
+func (w *World) workloadObject(s Scenario) client.Object {
+	if s.Workload == "cloneset" {
+		if o := w.Get(GVKCloneSet, s.Namespace, s.Name); o != nil {
+			return o
+		}
+		return nil
+	}
+	if o := w.Get(GVKDeployment, s.Namespace, s.Name); o != nil {
+		return o
+	}
+	return nil
+}
+
+// armCancel classifies a user's template change. While the Rollout is Healthy the template
+// being replaced is the stable one; while it is progressing the new template is a rollback (equal
+// to the stable template), a return to the revision being released, or a supersession.
+func (m *stdMonitor) armCancel(w *World, wr *Write, bt, at *corev1.PodTemplateSpec) {
+	t, s := m.t, m.t.S
+	ro := w.Rollout(s.Namespace, s.Name)
+	if ro == nil || ro.DeletionTimestamp != nil || ro.Spec.Disabled {
+		t.Cancel = nil
+		return
+	}
+	switch ro.Status.Phase {
+	case v1beta1.RolloutPhaseHealthy:
+		if !t.pendingRelease {
+			t.StableTpl = bt.DeepCopy()
+			t.pendingRelease = true
+		}
+		t.Cancel = nil
+		return
+	case v1beta1.RolloutPhaseProgressing:
+	default:
+		t.Cancel = nil
+		return
+	}
+	reason := progressingReason(ro)
+	if reason != v1alpha1.ProgressingReasonInRolling && reason != v1alpha1.ProgressingReasonPaused {
+		// initialising, or one of the finalising sequences is already running: which sequence the
+		// controller continues with is not what this property fixes
+		t.Cancel = nil
+		t.cancelUnjudged = true
+		return
+	}
+	if t.cancelUnjudged || t.StableTpl == nil || t.CanaryTpl == nil {
+		t.Cancel = nil
+		return
+	}
+	kind := "supersede"
+	recordedStable := false
+	if sub := ro.Status.GetSubStatus(); sub != nil {
+		if s.Workload == "cloneset" {
+			recordedStable = revisionHash(at) == sub.StableRevision
+		} else {
+			recordedStable = k8sTemplateHash(templateWithoutHash(at)) == sub.StableRevision
+		}
+	}
+	switch {
+	case reflect.DeepEqual(at.Spec, t.StableTpl.Spec) != recordedStable:
+		// the template last seen Healthy and the revision the Rollout records as stable differ (a
+		// superseding release on a fully updated workload moves the recorded stable revision):
+		// which of the two "its stable revision" means is not for this monitor to decide
+		t.Cancel = nil
+		t.cancelUnjudged = true
+		return
+	case recordedStable:
+		kind = "rollback"
+	case reflect.DeepEqual(at.Spec, t.CanaryTpl.Spec):
+		// back to the revision being released (the controller may or may not have seen the detour)
+		if t.Cancel != nil && !t.Cancel.Cancelling {
+			t.Cancel = nil
+		}
+		return
+	}
+	rt := w.ReadRouting(s)
+	t.Cancel = &CancelState{Kind: kind, HadTraffic: s.HasTraffic() && !s.DisableCanarySvc && rt.ToCanary(), Seq: wr.Seq, CanaryRev: canaryRevOf(ro), Reason: reason,
+		NewPods: w.PodsOfRevision(s, canaryRevOf(ro))}
+	if sub := ro.Status.GetSubStatus(); sub != nil {
+		t.Cancel.StablePods = w.PodsOfRevision(s, sub.StableRevision)
+	}
+	t.Cancels++
+	if t.Cancel.HadTraffic {
+		t.CancelsHot++
+	}
+}
+
+// checkCancelOrder: once a rollback / supersession is in flight, every write that removes
+// new-revision pods or hands the workload back to its native controller must find the gateway
+// already free of any canary share.
+func (m *stdMonitor) checkCancelOrder(w *World, wr *Write) {
+	t, s := m.t, m.t.S
+	c := t.Cancel
+	if c == nil || !c.HadTraffic || wr.Actor == ActorUser || wr.Actor == ActorEnv || wr.Actor == ActorGC || wr.Actor == ActorHarness {
+		return
+	}
+	event := ""
+	ann := func(o client.Object, k string) bool {
+		if o == nil {
+			return false
+		}
+		_, ok := o.GetAnnotations()[k]
+		return ok
+	}
+	switch wr.GVK {
+	case GVKBatchRelease:
+		if wr.Before == nil {
+			return
+		}
+		if wr.Verb == "delete" || (wr.After != nil && wr.After.GetDeletionTimestamp() != nil && wr.Before.GetDeletionTimestamp() == nil) {
+			event = "batchrelease-deleted"
+		} else if wr.After != nil && wr.Verb != "status" {
+			b, a := wr.Before.(*v1beta1.BatchRelease), wr.After.(*v1beta1.BatchRelease)
+			if b.Spec.ReleasePlan.BatchPartition != nil && a.Spec.ReleasePlan.BatchPartition == nil {
+				event = "batchrelease-unpartitioned"
+			}
+		}
+	case GVKCloneSet, GVKDeployment:
+		if wr.Before == nil || wr.Verb == "status" {
+			return
+		}
+		if wr.Before.GetLabels()[util.CanaryDeploymentLabel] == s.Name {
+			switch {
+			case wr.Verb == "delete" || wr.After == nil || (wr.After.GetDeletionTimestamp() != nil && wr.Before.GetDeletionTimestamp() == nil):
+				event = "canary-deployment-deleted"
+			case pointer.Int32Deref(*replicasPtr(wr.After), 0) < pointer.Int32Deref(*replicasPtr(wr.Before), 0):
+				event = "canary-deployment-scaled-down"
+			}
+			break
+		}
+		if wr.Key.Name != s.Name || wr.After == nil {
+			return
+		}
+		switch {
+		case ann(wr.Before, util.BatchReleaseControlAnnotation) && !ann(wr.After, util.BatchReleaseControlAnnotation):
+			event = "workload-control-released"
+		// (dropping the in-progressing marker alone hands nothing back: the workload stays paused /
+		// partitioned under the BatchRelease's control-info)
+		case workloadPaused(wr.Before) && !workloadPaused(wr.After):
+			event = "workload-resumed"
+		}
+	}
+	if event == "" {
+		return
+	}
+	t.HandBacks++
+	if rt := w.ReadRouting(s); rt.ToCanary() {
+		w.Violate("C10", "c10-"+event+"-before-traffic-back-on-stable-"+c.Kind, "%s (%s) while the gateway still routes to the canary (weight=%d match=%q); the user's %s was written at #%d during Progressing/%s",
+			wr, event, rt.Weight, rt.Match, c.Kind, c.Seq, c.Reason)
+	}
+}
+
+// canaryRevOf is Status.GetCanaryRevision without its nil dereference on an empty status.
+func canaryRevOf(ro *v1beta1.Rollout) string {
+	if ro == nil || ro.Status.GetSubStatus() == nil {
+		return ""
+	}
+	return ro.Status.GetCanaryRevision()
+}
+
+func workloadPaused(o client.Object) bool {
+	switch t := o.(type) {
+	case *kruisev1alpha1.CloneSet:
+		return t.Spec.UpdateStrategy.Paused
+	case *appsv1.Deployment:
+		return t.Spec.Paused
+	}
+	return false
+}
+
+// onRolloutCancel: status writes of the Rollout controller judged against the cancel in flight.
+func (m *stdMonitor) onRolloutCancel(w *World, wr *Write, before, after *v1beta1.Rollout) {
+	t, s := m.t, m.t.S
+	// the template the controller records as canary revision
+	if canaryRevOf(after) != "" && (before == nil || canaryRevOf(before) != canaryRevOf(after)) {
+		if o := w.workloadObject(s); o != nil {
+			t.CanaryTpl = templateOf(o).DeepCopy()
+		}
+	}
+	if after.Status.Phase == v1beta1.RolloutPhaseHealthy && (before == nil || before.Status.Phase != v1beta1.RolloutPhaseHealthy) {
+		t.pendingRelease = false
+		t.cancelUnjudged = false
+		t.Superseded, t.Scaled, t.ChangedWhileFinalising = false, false, false
+		if o := w.workloadObject(s); o != nil {
+			t.StableTpl = templateOf(o).DeepCopy()
+		}
+	}
+	c := t.Cancel
+	if c == nil || before == nil {
+		return
+	}
+	br, ar := progressingReason(before), progressingReason(after)
+	if ar == v1alpha1.ProgressingReasonCancelling {
+		c.Cancelling = true
+	}
+	switch c.Kind {
+	case "rollback":
+		// the progressing condition leaves Cancelling / or the rollout becomes Healthy: reported as not succeeded
+		if after.Status.Phase == v1beta1.RolloutPhaseProgressing && br != ar && ar == v1alpha1.ProgressingReasonCompleted {
+			t.RolledBacks++
+			cond := util.GetRolloutCondition(after.Status, v1beta1.RolloutConditionSucceeded)
+			if cond == nil || cond.Status != corev1.ConditionFalse {
+				sig := "c10-rollback-not-reported-as-failed"
+				if !c.Cancelling {
+					// the Rollout never showed Progressing/Cancelling: the revert was not recognised
+					sig = "c10-rollback-not-recognised-" + s.Workload
+				}
+				w.Violate("C10", sig, "%s: the release was rolled back (user write #%d, %d new-revision and %d stable pods existed) and its progress ended (%s -> %s) without Succeeded=False (condition: %+v)", wr, c.Seq, c.NewPods, c.StablePods, br, ar, cond)
+			}
+			t.Cancel = nil
+		}
+	case "supersede":
+		if canaryRevOf(after) != "" && canaryRevOf(after) != c.CanaryRev && after.Status.Phase == v1beta1.RolloutPhaseProgressing {
+			t.Restarts++
+			sub := after.Status.GetSubStatus()
+			if sub.CurrentStepIndex != 1 || (sub.CurrentStepState != v1beta1.CanaryStepStateInit && sub.CurrentStepState != v1beta1.CanaryStepStateUpgrade && sub.CurrentStepState != "") {
+				w.Violate("C10", "c10-supersession-not-restarted-at-step-one", "%s: a newer revision superseded the release (user write #%d) and the Rollout records it at step %d/%s instead of restarting at step 1", wr, c.Seq, sub.CurrentStepIndex, sub.CurrentStepState)
+			}
+			t.Cancel = nil
+		}
+	}
+}
+
 // ---------- Rollout status transitions: C02, C03(O2), C10 ----------
 
 func stepsOf(ro *v1beta1.Rollout) []v1beta1.CanaryStep { return ro.Spec.Strategy.GetSteps() }
@@ -545,7 +828,11 @@ func (m *stdMonitor) onRollout(w *World, wr *Write) {
 		}
 		return
 	}
-	if wr.Actor != ActorRollout || before == nil {
+	if wr.Actor != ActorRollout {
+		return
+	}
+	m.onRolloutCancel(w, wr, before, after)
+	if before == nil {
 		return
 	}
 	bs, as := before.Status.GetSubStatus(), after.Status.GetSubStatus()
@@ -843,25 +1130,23 @@ func (m *stdMonitor) onWorkload(w *World, wr *Write) {
 					t.LastDisturbance = "template-change"
 				}
 				t.Released = true
+				if ro := w.Rollout(s.Namespace, s.Name); ro != nil && ro.Status.Phase == v1beta1.RolloutPhaseProgressing {
+					t.Superseded = true
+					if r := progressingReason(ro); r == v1alpha1.ProgressingReasonCancelling || r == v1alpha1.ProgressingReasonFinalising {
+						t.ChangedWhileFinalising = true
+					}
+				}
 			} else if rb, ra := replicasPtr(wr.Before), replicasPtr(wr.After); rb != nil && ra != nil && *rb != nil && *ra != nil && **rb != **ra {
 				t.LastDisturbance = "scale"
+				t.Scaled = true
 			}
 		}
-		// template / replicas change by the user: rollback or supersession arms the cancel monitor
-		if wr.Before != nil && s.HasTraffic() {
-			bt, at := templateOf(wr.Before), templateOf(wr.After)
-			if bt != nil && at != nil && !reflect.DeepEqual(bt.Spec, at.Spec) {
-				rt := w.ReadRouting(s)
-				t.OutstandingReq = true
-				if rt.ToCanary() {
-					t.CancelArmed, t.CancelHadTraffic = true, true
-					t.CancelKind = at.Spec.Containers[0].Image
-				}
-			}
-		} else if wr.Before != nil {
+		// template change by the user: rollback or supersession arms the cancel monitor
+		if wr.Before != nil {
 			bt, at := templateOf(wr.Before), templateOf(wr.After)
 			if bt != nil && at != nil && !reflect.DeepEqual(bt.Spec, at.Spec) {
 				t.OutstandingReq = true
+				m.armCancel(w, wr, bt, at)
 			}
 		}
 		return
@@ -872,6 +1157,24 @@ func (m *stdMonitor) onWorkload(w *World, wr *Write) {
 	exp, n, ok := m.exposure(w, wr.After)
 	if !ok {
 		return
+	}
+	// C10: between a supersession and the restart of the release, the superseding revision must
+	// not be rolled out beyond what step one allows (it "restarts from step one")
+	if c := t.Cancel; c != nil && c.Kind == "supersede" && wr.GVK == GVKCloneSet && wr.Before != nil {
+		if ro := w.Rollout(s.Namespace, s.Name); ro != nil && canaryRevOf(ro) == c.CanaryRev && len(stepsOf(ro)) > 0 {
+			before, _, _ := m.exposure(w, wr.Before)
+			bound := 0
+			if st := stepsOf(ro)[0]; st.Replicas != nil {
+				bound = planned(*st.Replicas, n)
+				if st.Replicas.Type == intstr.String {
+					bound += (n + 99) / 100
+				}
+			}
+			t.SupersedeWrites++
+			if exp > before && exp > bound {
+				w.Violate("C10", "c10-superseding-revision-exposed-beyond-step-one-before-restart", "%s: the user published a newer revision at #%d; before the Rollout restarted the release the BatchRelease controller raised the workload's exposure %d -> %d pods of %d for that revision (step one allows %d)", wr, c.Seq, before, exp, n, bound)
+			}
+		}
 	}
 	br := w.BatchRelease(s.Namespace, s.Name)
 	ro := w.Rollout(s.Namespace, s.Name)
